@@ -28,6 +28,35 @@ pub use wal::WalBlobBuilder;
 mod ht_file;
 mod meta_map;
 mod wal;
+
+/// Build a WAL blob with the real [`WalBlobBuilder`]: `None` is a clear of the bucket, `Some` an
+/// update (page id, page diff bytes, changed nodes, elided children bytes). Returns the bytes handed
+/// to the WAL file.
+#[cfg(feature = "verif-hooks")]
+pub fn verif_wal_blob(
+    sync_seqn: u32,
+    entries: &[(u64, Option<([u8; 32], [u8; 16], Vec<[u8; 32]>, [u8; 8])>)],
+) -> Vec<u8> {
+    let mut builder = WalBlobBuilder::new().expect("wal blob builder");
+    builder.reset(sync_seqn);
+    for (bucket, update) in entries {
+        match update {
+            None => builder.write_clear(*bucket),
+            Some((page_id, diff, nodes, elided)) => {
+                let page_diff = crate::page_diff::PageDiff::from_bytes(*diff).expect("page diff");
+                builder.write_update(
+                    *page_id,
+                    &page_diff,
+                    nodes.iter().cloned(),
+                    crate::merkle::ElidedChildren::from_bytes(*elided),
+                    *bucket,
+                );
+            }
+        }
+    }
+    builder.finalize();
+    builder.as_slice().to_vec()
+}
 pub(crate) mod writeout;
 
 /// During assigning a bucket to a page, the allocator gave up, meaning that the occupancy rate
